@@ -840,7 +840,8 @@ Proof.
   pose proof (init_writes_idx W d h (reinit_w W d) d Hi Hws eq_refl eq_refl
                 (length (map (fun w => [w]) (reinit_w W d)))) as X.
   rewrite firstn_all, singles_flat in X. destruct X as (I' & F1 & F2).
-  unfold step in HG. cbn [plan fst snd andb apply_batches fold_left app] in HG.
+  unfold step in HG. cbn [plan fst snd andb app] in HG. unfold apply_batches at 1 in HG. cbn [fold_left] in HG.
+  change (fold_left apply_batch (map (fun w => [w]) (reinit_w W d)) d) with (apply_batches d (map (fun w => [w]) (reinit_w W d))) in HG.
   rewrite singles_flat in HG. destruct HG as (C' & K' & S').
   apply covers_of_inv; auto. apply (mem_fields_eq d); auto.
 Qed.
